@@ -113,6 +113,24 @@ fn keys_for<V: Fv>(seed: u64, nheavy: usize, nlight: usize, heavy: &mut Shards, 
             }
         }
     }
+    // decode chains on one thread: decode A, decode B, re-encode A; decode the same bytes twice; a key decoded after a
+    // failed decode -- each result must still be the byte-identical key (state leaking between decoder calls)
+    {
+        let (ka, _) = V::keygen(rng.gen());
+        let (kb, _) = V::keygen(rng.gen());
+        let (ba, bb) = (V::sk_to_bytes(&ka), V::sk_to_bytes(&kb));
+        let mut bad = ba.clone();
+        bad[0] ^= 0xff;
+        let mut chain_ok = true;
+        for step in [&ba, &bb, &ba, &ba, &bad, &bb, &ba] {
+            match guarded(|| V::sk_from_bytes(step)) {
+                Outcome::Ret(Ok(k)) => chain_ok &= V::sk_to_bytes(&k) == **step && (k == ka || k == kb),
+                Outcome::Ret(Err(_)) => chain_ok &= *step == bad,
+                Outcome::Panic(_) => chain_ok = false,
+            }
+        }
+        light.emit(json!({"ev":"sigrt","n":V::N,"siglen":V::SIG_LEN,"rt_equal":chain_ok,"tag":"decode-chain"}));
+    }
     // volume: light events on many seeds in parallel, interesting ones promoted
     let nthreads = 16;
     let mut handles = vec![];
